@@ -153,17 +153,6 @@ def src(node) -> str:
     return ast.unparse(node)
 
 
-def same_expr(node, expected: str) -> bool:
-    """structural equality of an expression node with an expected source string
-    (insensitive to redundant parentheses and formatting)"""
-    try:
-        a = ast.dump(ast.parse(ast.unparse(node), mode="eval"))
-        b = ast.dump(ast.parse(expected, mode="eval"))
-    except SyntaxError:
-        return False
-    return a == b
-
-
 def flat(node_or_src) -> str:
     """canonical one-line text of code: ast.unparse formatting, lines stripped and joined by ';'"""
     if isinstance(node_or_src, str):
@@ -176,10 +165,172 @@ def flat(node_or_src) -> str:
     return ";".join(l.strip() for l in text.splitlines() if l.strip())
 
 
-def contains(node, fragment: str) -> bool:
-    """does the code of `node` contain the statements of `fragment` (consecutively, any indentation)?
-    Both sides are canonicalised through ast, so quotes, parentheses and spacing do not matter."""
-    return flat(fragment) in flat(node)
+# ---- structural matching with metavariables -------------------------------------------------
+_IGNORED_FIELDS = {"lineno", "col_offset", "end_lineno", "end_col_offset", "ctx", "type_comment", "kind"}
+
+
+def _match(pat, tgt, bind, metas):
+    """structural equality of two AST nodes; Name ids listed in `metas` (or starting with `_`+upper? no)
+    are metavariables bound consistently (injectively) to names of the target; `a*b` matches `b*a`."""
+    if isinstance(pat, ast.Name) and pat.id in metas:
+        if not isinstance(tgt, ast.Name):
+            return False
+        if pat.id in bind:
+            return bind[pat.id] == tgt.id
+        if tgt.id in bind.values():
+            return False
+        bind[pat.id] = tgt.id
+        return True
+    if type(pat) is not type(tgt):
+        return False
+    if isinstance(pat, ast.BinOp) and isinstance(pat.op, ast.Mult) and isinstance(tgt.op, ast.Mult):
+        saved = dict(bind)
+        if _match(pat.left, tgt.left, bind, metas) and _match(pat.right, tgt.right, bind, metas):
+            return True
+        bind.clear()
+        bind.update(saved)
+        if _match(pat.left, tgt.right, bind, metas) and _match(pat.right, tgt.left, bind, metas):
+            return True
+        bind.clear()
+        bind.update(saved)
+        return False
+    if isinstance(pat, ast.arg):
+        if pat.arg in metas:
+            if pat.arg in bind:
+                return bind[pat.arg] == tgt.arg
+            bind[pat.arg] = tgt.arg
+            return True
+        return pat.arg == tgt.arg
+    for f in pat._fields:
+        if f in _IGNORED_FIELDS:
+            continue
+        a, b = getattr(pat, f, None), getattr(tgt, f, None)
+        if isinstance(a, list) and f in ("body", "orelse", "finalbody") and (not a or isinstance(a[0], ast.stmt)):
+            # statement lists: the pattern's statements occur consecutively in the target's block; an empty list or a
+            # single `pass` matches any block
+            if not isinstance(b, list):
+                return False
+            if not a or (len(a) == 1 and isinstance(a[0], ast.Pass)):
+                continue
+            tb = [x for x in b if not _is_doc(x)]
+            okk = False
+            for i in range(len(tb) - len(a) + 1):
+                trial = dict(bind)
+                if all(_match(x, y, trial, metas) for x, y in zip(a, tb[i:i + len(a)])):
+                    bind.clear()
+                    bind.update(trial)
+                    okk = True
+                    break
+            if not okk:
+                return False
+            continue
+        if isinstance(a, list):
+            if not isinstance(b, list) or len(a) != len(b):
+                return False
+            for x, y in zip(a, b):
+                if isinstance(x, ast.AST):
+                    if not _match(x, y, bind, metas):
+                        return False
+                elif x != y:
+                    return False
+        elif isinstance(a, ast.AST):
+            if not isinstance(b, ast.AST) or not _match(a, b, bind, metas):
+                return False
+        else:
+            if a != b:
+                return False
+    return True
+
+
+def _blocks(node):
+    """every statement list under node (incl. the node itself when it is a list)"""
+    if isinstance(node, list):
+        yield node
+        for st in node:
+            yield from _blocks(st)
+        return
+    for f in ("body", "orelse", "finalbody"):
+        b = getattr(node, f, None)
+        if isinstance(b, list) and b and isinstance(b[0], ast.stmt):
+            yield b
+            for st in b:
+                yield from _blocks(st)
+    for h in getattr(node, "handlers", []) or []:
+        yield from _blocks(h)
+
+
+def _is_doc(st):
+    return isinstance(st, ast.Expr) and isinstance(st.value, ast.Constant) and isinstance(st.value.value, str)
+
+
+def find(node, fragment: str, vars=None, bind=None):
+    """find the statements of `fragment` as consecutive statements of some block under `node`.
+    Names assigned inside the fragment (and those listed in `vars`) are metavariables: the match is up to a
+    consistent renaming of these locals; multiplication operands may be commuted; formatting is irrelevant.
+    -> binding dict or None"""
+    import textwrap
+    ptree = ast.parse(textwrap.dedent(fragment))
+    pst = [s_ for s_ in ptree.body]
+    metas = set(vars or ())
+    for n in ast.walk(ptree):
+        if isinstance(n, ast.Name) and isinstance(n.ctx, ast.Store):
+            metas.add(n.id)
+    if isinstance(node, ast.expr):
+        if len(pst) == 1 and isinstance(pst[0], ast.Expr):
+            b = dict(bind or {})
+            return b if _match(pst[0].value, node, b, metas) else None
+        return None
+    if len(pst) == 1 and isinstance(pst[0], ast.Expr) and not isinstance(pst[0].value, ast.Constant):
+        roots = node if isinstance(node, list) else [node]
+        for r in roots:
+            for sub in ast.walk(r):
+                if isinstance(sub, ast.expr) and type(sub) is type(pst[0].value):
+                    b = dict(bind or {})
+                    if _match(pst[0].value, sub, b, metas):
+                        return b
+    for blk in _blocks(node if not isinstance(node, ast.Module) else node.body):
+        stmts = [s_ for s_ in blk if not _is_doc(s_)]
+        for i in range(len(stmts) - len(pst) + 1):
+            b = dict(bind or {})
+            if all(_match(p_, t_, b, metas) for p_, t_ in zip(pst, stmts[i:i + len(pst)])):
+                return b
+    return None
+
+
+def contains(node, fragment: str, vars=None, bind=None) -> bool:
+    """does the code of `node` contain the statements of `fragment` (consecutively, in one block), up to renaming of
+    the fragment's locals, commuted products, quotes, parentheses and spacing?"""
+    return find(node, fragment, vars, bind) is not None
+
+
+def same_expr(node, expected: str, vars=None, bind=None) -> bool:
+    """structural equality of an expression node with an expected source string (same tolerances as `contains`)"""
+    try:
+        e = ast.parse(expected, mode="eval").body
+        t = ast.parse(ast.unparse(node), mode="eval").body
+    except SyntaxError:
+        return False
+    return _match(e, t, dict(bind or {}), set(vars or ()))
+
+
+def assigned_names(fn) -> set:
+    out = set()
+    for n in ast.walk(fn):
+        if isinstance(n, ast.Name) and isinstance(n.ctx, ast.Store):
+            out.add(n.id)
+        elif isinstance(n, ast.arg):
+            out.add(n.arg)
+    return out
+
+
+def need_locals(fn, names, what=""):
+    """the rules of this function are written against these local names: if one of them is gone the idiom changed and
+    the analysis cannot decide (ANALYSIS-ERROR), which is not a violation"""
+    have = assigned_names(fn)
+    missing = [n for n in names if n not in have]
+    if missing:
+        raise AnalysisError(f"idiom changed in {getattr(fn, '_qual', getattr(fn, 'name', '?'))}: local name(s) {missing} "
+                            f"the rule {what} is written against are not defined any more")
 
 
 def parent(node):
@@ -341,6 +492,28 @@ class Check:
         self._seen.add(k)
         self.obs.append(o)
         return o
+
+    def pat(self, rule, node, construct, ok, good, bad=None, **kw):
+        """obligation of an idiom-recognising rule: HOLDS when the expected idiom is found, VIOLATED only when
+        a recognised wrong form is found (`bad` = its diagnosis), otherwise UNDECIDED (the idiom changed: the
+        analysis cannot decide, which is an ANALYSIS-ERROR, never an alarm)"""
+        if ok:
+            return self.ob(rule, node, construct, True, good, **kw)
+        if bad:
+            return self.ob(rule, node, construct, False, bad, **kw)
+        return self.ob(rule, node, construct, None, "idiom not recognised (statement rewritten?): cannot decide `" +
+                       (construct if isinstance(construct, str) else src(construct))[:80] + "`", **kw)
+
+    def need(self, fn, names, rule, file=None):
+        """False (and an UNDECIDED obligation) when local names a rule is written against are gone"""
+        have = assigned_names(fn)
+        missing = [n for n in names if n not in have]
+        if missing:
+            self.ob(rule, fn, f"locals {missing} of {getattr(fn, '_qual', '?')}", None,
+                    f"idiom changed: the rule is written against local name(s) {missing}, which are no longer defined",
+                    file=file, func=getattr(fn, "_qual", None))
+            return False
+        return True
 
     def in_file(self, rel):
         self._cur_file = rel
